@@ -141,7 +141,7 @@ func c17(c *Ctx) {
 		for _, k := range ks {
 			sum.Add(sum, k)
 		}
-		switch r.Intn(7) {
+		switch r.Intn(9) {
 		case 0: // Select with a key sub-query: the values in order
 			ec := c.AddEval(`$.xs.Select("$.name")`, doc, "select-key", true, n > 0)
 			want := names
@@ -202,6 +202,36 @@ func c17(c *Ctx) {
 				}
 			}
 			ec := c.AddEval(fmt.Sprintf("$.xs.Index(%d).k.AnyOf(%s)", i, strings.Join(args, ",")), doc, "anyof", true, true)
+			ec.Check = boolCheck(want)
+		case 7, 8: // AnyOf on a number with arguments of mixed kinds in every order (strings and bools before the match)
+			if n == 0 {
+				continue
+			}
+			i := r.Intn(n)
+			pool := []string{"\"x\"", "false", "true", "\"5\"", "$.w", "$.mixed", "99", fmt.Sprint(r.Intn(9) - 2), "$.pick"}
+			r.Shuffle(len(pool), func(a, b int) { pool[a], pool[b] = pool[b], pool[a] })
+			args := pool[:1+r.Intn(5)]
+			want := false
+			for _, a := range args {
+				var nums []*big.Rat
+				switch a {
+				case "$.pick":
+					nums = []*big.Rat{big.NewRat(1, 1), big.NewRat(5, 1)}
+				case "$.mixed":
+					nums = []*big.Rat{big.NewRat(3, 1), big.NewRat(0, 1)}
+				default:
+					if v, ok := new(big.Rat).SetString(a); ok {
+						nums = []*big.Rat{v}
+					}
+				}
+				for _, v := range nums {
+					if v.Cmp(ks[i]) == 0 {
+						want = true
+					}
+				}
+			}
+			doc2 := h.Obj("xs", h.SliceAny(objs...), "pick", h.SliceAny(h.FloatD(1), h.FloatD(5)), "w", h.Str("n1"), "mixed", h.SliceAny(h.Str("x"), h.Bool(false), h.FloatD(3), h.Str("y"), h.FloatD(0)))
+			ec := c.AddEval(fmt.Sprintf("$.xs.Index(%d).k.AnyOf(%s)", i, strings.Join(args, ",")), doc2, "anyof-mixed-kinds", true, true)
 			ec.Check = boolCheck(want)
 		case 6: // AnyOf on strings with a spread array of the elements' names
 			if n == 0 {
